@@ -653,7 +653,20 @@ func (r *renderer) link(e *emitter, i int, res, arg string) {
 		n := fmt.Sprintf("a%d", j)
 		r.names[j] = "Std::Kernel::" + n
 		r.defBody(j, []string{fmt.Sprintf("async def %s(%s: Int): Int", n, p)}, p, nil)
-		switch fn.Var % 3 {
+		switch fn.Var % 4 {
+		case 3:
+			// the promise has already been rejected when it is awaited: it is settled first by a
+			// synchronous await whose error is caught (the already-resolved path of await)
+			pv := fmt.Sprintf("pv%d", j)
+			e.ln(fmt.Sprintf("%s := %s(%s)", pv, n, arg))
+			e.ln("do")
+			e.ln(fmt.Sprintf("  %s.await_sync", pv))
+			e.ln(fmt.Sprintf("catch settled%d", j))
+			e.ln("end")
+			if form != formNextLine && form != formModifier {
+				form = formPlain
+			}
+			r.assign(e, key(i), res, form, callText{prefix: "await ", head: pv}, arg)
 		case 0:
 			ct := call("", n, arg)
 			ct.prefix = "await "
